@@ -292,6 +292,87 @@ theorem C25_sig_examples :
     quoted (pieces "SELECT 'a  B', \"Col\" FROM t".toList) = "'a  B'\"Col\"".toList := by
   decide
 
+/-! ## quoted regions are part of the key, for every delimiter kind and any content -/
+
+theorem regionsP_none_acc (acc acc' : List Char) (ps : List Piece) :
+    regionsP none acc ps = regionsP none acc' ps := by
+  cases ps with
+  | nil => simp [regionsP]
+  | cons x xs => cases x <;> simp [regionsP]
+
+/-- the scanner state as invariant: in every mode the regions of the remaining text are the
+    regions read off the pieces the scanner emits for it (the scanner's quote mode carries the
+    opening delimiter, so other delimiter characters inside a region stay content) -/
+theorem regions_scan (s : List Char) :
+    (∀ d acc p e, regionsGo (.inq d) acc s = regionsP (some d) acc (scan (.quote d) p e s)) ∧
+    (∀ acc p e, regionsGo .comment acc s = regionsP none [] (scan .comment p e s)) ∧
+    (∀ acc p e, regionsGo .out acc s = regionsP none [] (scan .out p e s)) := by
+  induction s with
+  | nil => simp [regionsGo, regionsP, scan]
+  | cons c cs ih =>
+    obtain ⟨ihq, ihc, iho⟩ := ih
+    refine ⟨?_, ?_, ?_⟩
+    · intro d acc p e
+      simp only [regionsGo, scan, regionsP]
+      by_cases h : c = d
+      · simp only [h, if_true]
+        rw [iho [] false true]
+      · simp only [h, if_false]
+        exact ihq d (acc ++ [c]) false true
+    · intro acc p e
+      simp only [regionsGo, scan]
+      split
+      · exact iho [] true e
+      · exact ihc [] true e
+    · intro acc p e
+      simp only [regionsGo, scan]
+      split
+      · exact iho [] true e
+      · split
+        · exact ihc [] true e
+        · by_cases hq : isQuote c = true
+          · simp only [hq, if_true]
+            rw [ihq c [] false true]
+            split <;> simp [regionsP]
+          · have hqf : isQuote c = false := by simpa using hq
+            simp only [hqf, Bool.false_eq_true, if_false]
+            rw [iho [] false true]
+            split <;> simp [regionsP]
+
+/-- **Quoted regions, specified on the text itself, are exactly what the scanner keeps.** -/
+theorem C25_regions_are_scanned (s : List Char) : regions s = regionsP none [] (pieces s) :=
+  (regions_scan s).2.2 [] false false
+
+/-- **The normal form preserves every quoted region**: every character between a delimiter
+    (`'`, `"` or `` ` ``) and its matching close — whatever other delimiter characters, blanks,
+    letter case or `--` it contains — for every text. -/
+theorem C25_normal_form_preserves_regions (s : List Char) : regions (normalizeQ s) = regions s := by
+  rw [C25_regions_are_scanned, C25_regions_are_scanned]
+  have h := rescan s .out false false false (fun _ _ => rfl)
+  simp only [reMode] at h
+  unfold pieces normalizeQ pieces
+  rw [h]
+
+/-- **Equal keys ⇒ equal quoted regions**: two texts that differ anywhere inside a string
+    literal or delimited identifier never share a cache entry. -/
+theorem C25_equal_keys_equal_regions (a b : List Char) (h : normalizeQ a = normalizeQ b) :
+    regions a = regions b := by
+  rw [C25_regions_are_scanned, C25_regions_are_scanned, C25_sig_structure a b h]
+
+/-- other delimiters inside a region are content: the pairs a delimiter-forgetting scanner
+    would conflate are told apart, for all three delimiter kinds -/
+theorem C25_foreign_quote_examples :
+    regions "SELECT 'say \"Hi\"  x', \"a'B\", `q\"R`".toList
+      = [('\'', "say \"Hi\"  x".toList), ('"', "a'B".toList), ('`', "q\"R".toList)] ∧
+    normalizeQ "SELECT 'say \"Hi\"'".toList ≠ normalizeQ "SELECT 'say \"hi\"'".toList ∧
+    normalizeQ "SELECT 'it`s  A'".toList ≠ normalizeQ "SELECT 'it`s A'".toList ∧
+    normalizeQ "SELECT \"a'B\" FROM t".toList ≠ normalizeQ "SELECT \"a'b\" FROM t".toList ∧
+    normalizeQ "SELECT `a'B` FROM t".toList ≠ normalizeQ "SELECT `a'b` FROM t".toList ∧
+    normalizeQ "SELECT 'x''\"Q  r'".toList ≠ normalizeQ "SELECT 'x''\"Q r'".toList ∧
+    normalizeQ "SELECT 1 -- \"c\n, 'A'".toList ≠ normalizeQ "SELECT 1 -- \"c\n, 'a'".toList ∧
+    normalizeQ "SELECT 'say \"Hi\"' FROM T".toList = normalizeQ "select  'say \"Hi\"'\nfrom t".toList := by
+  decide
+
 /-- the normaliser before the repair (whole text lower-cased and collapsed) gave one key to
     queries with different results: (A) was false of the code as it was -/
 theorem C25_old_normalizer_conflates :
